@@ -86,13 +86,13 @@ Proof.
   rewrite !orb_true_iff, !bytes_eqb_eq. intros [H|[H|[H|[H|H]]]]; auto. discriminate H.
 Qed.
 
-Lemma sc_html_name_ok : content_name_ok (sc_sanitizer_name SC_HTML) = true.
+Lemma sc_html_name_allowed : content_name_ok (sc_sanitizer_name SC_HTML) = true.
 Proof.
   pose proof content_sanitizers_ok_ok as H. unfold content_sanitizers_ok in H.
   apply andb_true_iff in H as [H _]. exact H.
 Qed.
 
-Lemma content_lookup_name_ok e sc :
+Lemma content_lookup_name_allowed e sc :
   sc_for_element_content e = Some sc -> content_name_ok (sc_sanitizer_name sc) = true.
 Proof.
   unfold sc_for_element_content. intros H.
@@ -102,7 +102,7 @@ Proof.
 Qed.
 
 (* whatever context the element-content loop settles on names one of the four sanitizers *)
-Lemma all_same_content_name_ok : forall elems acc sc0,
+Lemma all_same_content_name_allowed : forall elems acc sc0,
   all_same_content_sc elems acc = Some sc0 ->
   (forall s, acc = Some s -> content_name_ok (sc_sanitizer_name s) = true) ->
   content_name_ok (sc_sanitizer_name sc0) = true.
@@ -114,8 +114,8 @@ Proof.
     + destruct (sc =? s0); [|discriminate H]. exact (IH _ _ H Hacc).
     + apply (IH _ _ H). intros s Hs. inversion Hs; subst s.
       destruct (bytes_eqb e []).
-      * inversion E; subst sc. exact sc_html_name_ok.
-      * exact (content_lookup_name_ok e sc E).
+      * inversion E; subst sc. exact sc_html_name_allowed.
+      * exact (content_lookup_name_allowed e sc E).
 Qed.
 
 (* ------------------------------------------------------------------ layer 1: action inertness *)
@@ -195,7 +195,7 @@ Proof.
   end.
   inversion En; subst n.
   assert (Hn : content_name_ok (sc_sanitizer_name sc0) = true).
-  { apply (all_same_content_name_ok _ None sc0 Esc). intros s Hs. discriminate Hs. }
+  { apply (all_same_content_name_allowed _ None sc0 Esc). intros s Hs. discriminate Hs. }
   rewrite (content_sanitizer_untrusted _ v o Hn Hu Ha). apply html_escaped_no_qa.
 Qed.
 
